@@ -121,6 +121,18 @@ class Ace(AceBase):
     # =========================== property ===========================
 
     @property
+    def version(self):
+        """Software version, the Protocol, Address, Port, Option objects of the ACE follow it."""
+        return self._version
+
+    @version.setter
+    def version(self, version) -> None:
+        self._version = version
+        for name in ("_protocol", "_srcaddr", "_srcport", "_dstaddr", "_dstport", "_option"):
+            if (obj := getattr(self, name, None)) is not None:
+                obj.version = version
+
+    @property
     def action(self) -> str:
         """ACE action: "permit", "deny".
 
